@@ -72,6 +72,8 @@ func execRel(r *RNG, c *Case) {
 	case "snpsagg":
 		a = runSnps(c, false)
 		b = runSnps(c, true)
+	case "gfffasta":
+		a, b = runListAsText(c.Get("text")), runGffFastaSection(c.Get("text"))
 	}
 	c.Set("goa", goField(a)).Set("gob", goField(b))
 }
@@ -204,10 +206,20 @@ func c14Gen(r *RNG, id string) *Case {
 		c.Tag("rows-sorted-by-start")
 	}
 	gffTxt, gffProto := renderGFF(rows, genome, true, r.Bool(), refName)
-	m := buildMSA(r, genome, r.Range(1, 5), r.Bool(), r.Bool())
+	annMode := r.Chance(1, 4) // no --reference: the reference comes from the annotation (ORIGIN / ##FASTA)
+	m := buildMSA(r, genome, r.Range(1, 5), r.Bool() && !annMode, r.Bool())
 	names := append([]string{refName}, m.names...)
 	seqs := append([]string{m.refRow}, m.rows...)
-	c.Set("refmode", "msa").Set("refname", refName).Set("origin", genome)
+	refmode := "msa"
+	if annMode {
+		refmode = "ann"
+		names, seqs = append([]string{}, m.names...), append([]string{}, m.rows...)
+		if r.Bool() { // a query filed under the reference's accession: it is a query like any other, in both formats
+			names[r.Intn(len(names))] = refName
+			c.Tag("query-named-like-annotation-sequence")
+		}
+	}
+	c.Set("refmode", refmode).Set("refname", refName).Set("origin", genome)
 	c.Set("names", strings.Join(names, ",")).Set("seqs", strings.Join(seqs, ","))
 	c.SetBool("append", r.Bool()).SetInt("start", -1).SetInt("end", -1).SetBool("agg", false).SetInt("thrn", 0).SetInt("thrd", 1)
 	c.SetInt("threads", r.PickInt([]int{1, 2, 4}))
